@@ -115,21 +115,25 @@ package chain
 // A new transaction context starts from the block state with empty transfer queues.
 //@ func (*Chain).NewStateContext
 //@   trusted
-//@   ensures balances != nil && fresh(balances) && len(balances.transfers) == 0 && len(balances.signedTransfers) == 0 && balances.mutex != nil && fresh(balances.mutex) && held(balances.mutex) == 0 && balances.txn == txn
+//@   ensures balances != nil && fresh(balances) && len(balances.transfers) == 0 && len(balances.signedTransfers) == 0 && balances.mutex != nil && fresh(balances.mutex) && held(balances.mutex) == 0 && balances.txn == txn && balances.block == b && len(balances.events) == 0
 //@   ensures forall k string :: $bal[k] == $blockBal[k] && $nonce[k] == $blockNonce[k]
 //@   ensures $ntr == 0
 //@   modifies $bal, $nonce, $ntr, $out, $in
 
+//   $scWrites  number of trie writes the smart contract made into the transaction's trie (C02)
+//@ ghost $scWrites Int
+
+// A transaction trie starts as a view of the block state: it holds none of a contract's writes.
 //@ func CreateTxnMPT
 //@   trusted
-//@   ensures result != nil
-//@   modifies nothing
+//@   ensures result != nil && $scWrites == 0
+//@   modifies $scWrites
 
 // Smart contracts act on chain state only through the state context: they queue transfers and
 // write trie nodes; they do not write client balances or nonces themselves (assumption).
 //@ func (*Chain).ExecuteSmartContract
 //@   trusted
-//@   modifies payload(balances).$all, $out, $in, $ntr, $saved, $nsaved, $deleted
+//@   modifies payload(balances).$all, $out, $in, $ntr, $saved, $nsaved, $deleted, $scWrites
 //@   ensures payload(balances, StateContext).mutex == old(payload(balances, StateContext).mutex) && payload(balances, StateContext).txn == old(payload(balances, StateContext).txn)
 // nil cannot be queued (AddTransfer / AddSignedTransfer are the only writers and dereference their argument)
 //@   ensures forall i in 0..len(payload(balances, StateContext).transfers) :: payload(balances, StateContext).transfers[i] != nil
@@ -155,6 +159,15 @@ package chain
 //@   ensures[failure-changes-nothing] err != nil ==> forall k string :: $blockBal[k] == old($blockBal[k]) && $blockNonce[k] == old($blockNonce[k])
 //@   ensures[supply-cap] txn.Value > MAXSUPPLY ==> err != nil
 //@   ensures[wrong-nonce-rejected] txn.Nonce != old($blockNonce[txn.ClientID]) + 1 ==> err != nil
+// (C02) after a chargeable contract failure (txn.Status set to TxnError = 2, not so on entry) nothing
+// the failed call did is left: the trie that gets merged holds none of its writes, no transfer it
+// queued is applied - only the fee transfer to the miner contract - and its events were replaced
+// by the single error event before the fee was queued
+//@   requires txn.Status != 2
+//@   at-call EmitError assert[fresh-context-for-failed-call] len(sctx.transfers) == 0 && len(sctx.signedTransfers) == 0 && len(sctx.events) == 0 && $scWrites == 0
+//@   at-call GetTransfers assert[failed-call-only-fee-transfer] txn.Status == 2 ==> len(sctx.transfers) <= 1 && (len(sctx.transfers) == 1 ==> sctx.transfers[0].ClientID == txn.ClientID && sctx.transfers[0].Amount == txn.Fee)
+//@   at-call GetSignedTransfers assert[failed-call-no-signed-transfer] txn.Status == 2 ==> len(sctx.signedTransfers) == 0
+//@   at-call MergeMPTChanges assert[failed-call-writes-discarded] txn.Status == 2 ==> $scWrites == 0 && $arg1 == clientState
 // (C04) what is applied has been validated: when the queued transfers are read back to be applied,
 // the transfers out of the sender add up to at most value + fee, and every signed transfer has a
 // valid signature of its source account
